@@ -656,10 +656,16 @@ def rename_symbols(model: Model, new_names: Mapping[TSymbol, TSymbol]) -> Model:
             newparam = p
         new.append(newparam)
 
+    dvs = {d.get(dv, dv): dvid for dv, dvid in model.dependent_variables.items()}
+    obs_trans = {
+        d.get(dv, dv): expr.subs(d) for dv, expr in model.observation_transformation.items()
+    }
     model = model.replace(
         parameters=Parameters.create(new),
         statements=model.statements.subs(d),
         random_variables=model.random_variables.subs(d),
+        dependent_variables=dvs,
+        observation_transformation=obs_trans,
     )
     return model.update_source()
     # FIXME: Only handles parameters, statements and random_variables and no clashes and circular renaming
